@@ -146,7 +146,19 @@ fn confirm_hang(case: &StrCase, input: &str, ctx: &mut Ctx) -> Option<String> {
             let mut job = case.job();
             job.inputs = vec![v.clone()];
             match ctx.w.run_budget(&job, B2_MS) {
-                JobResult::Done(_) => tmax = tmax.max(ctx.w.last_wall_us),
+                JobResult::Done(_) => {
+                    // wall time is inflated by machine load: take the best of up to three runs
+                    let mut t = ctx.w.last_wall_us;
+                    for _ in 0..2 {
+                        if t < FAST_US {
+                            break;
+                        }
+                        if let JobResult::Done(_) = ctx.w.run_budget(&job, B2_MS) {
+                            t = t.min(ctx.w.last_wall_us);
+                        }
+                    }
+                    tmax = tmax.max(t)
+                }
                 JobResult::Hang | JobResult::Died(_) => {
                     hanging = Some(v.clone());
                     break;
@@ -237,6 +249,32 @@ impl Prop for C06 {
             Part { name: "quantifier-shapes".into(), strategy: shapes_part(), cases: tier.pick(250_000, 5_000_000) },
             Part { name: "dangerous-ast-xsd".into(), strategy: dangerous_part("dangerous-ast-xsd", Dialect::Xsd), cases: tier.pick(50_000, 500_000) },
         ]
+    }
+    fn extra(&self, ctx: &mut Ctx) -> Vec<(String, Verdict, Option<StrCase>)> {
+        // thorough tier: libFuzzer campaign with a short per-execution timeout; timeout artifacts (and iterator-bound
+        // assertion crashes) are re-judged by check_termination
+        if ctx.tier != Tier::Thorough {
+            return vec![];
+        }
+        let seed = std::env::var("VERIF_SEED").ok().and_then(|s| s.parse().ok()).unwrap_or(0u64);
+        let c = crate::fuzzrun::Campaign { runs_per_job: 150_000, jobs: 12, timeout_s: 8, seed: seed + 77 };
+        match crate::fuzzrun::run(&c, &[]) {
+            Err(e) => {
+                eprintln!("harness error: fuzz campaign: {e}");
+                std::process::exit(2)
+            }
+            Ok((found, execs)) => {
+                ctx.obs.label(&format!("libfuzzer:executions={execs}"));
+                ctx.obs.label(&format!("libfuzzer:artifacts={}", found.len()));
+                ctx.obs.eval(execs);
+                for f in found {
+                    if let Verdict::Fail(fl) = check_termination(&f.case, ctx) {
+                        return vec![(format!("libfuzzer-{}", f.kind), Verdict::Fail(Failure { detail: format!("{} (candidate found by libFuzzer, re-judged through the worker)", fl.detail), ..fl }), Some(f.case.clone()))];
+                    }
+                }
+                vec![]
+            }
+        }
     }
     fn check(&self, case: &StrCase, ctx: &mut Ctx) -> Verdict {
         check_termination(case, ctx)
